@@ -15,6 +15,7 @@
 (*   a       action record (NASimCore!Act)                                 *)
 (*   luck    BOOLEAN  - the uniform draw offered was <= a.prob             *)
 (*   ndraw   number of draws the call consumed                             *)
+(*   blind   the draw could not be intercepted (luck is what was observed) *)
 (*   pre, post   attack states before / after                              *)
 (*   res     [success, value, disc, newly, flags]                          *)
 (*   reward, term, trunc, stepsB, stepsA                                   *)
@@ -134,7 +135,7 @@ C07(E) ==
      <<"C07", "no_flag_on_success_and_at_most_one",
        (E.res.success => E.res.flags = {}) /\ Cardinality(E.res.flags) <= 1>>,
      <<"C07", "one_draw_when_pre_at_most_one_always",
-       ((pre /\ draws) => E.ndraw = 1) /\ E.ndraw <= 1>> >>
+       E.blind \/ (((pre /\ draws) => E.ndraw = 1) /\ E.ndraw <= 1)>> >>
 
 ---------------------------------------------------------------------------
 (* C08: observations                                                       *)
